@@ -127,6 +127,8 @@ func (t *template) layout(ctx context.Context, w io.Writer) error {
 			// Parse the template bytes to get DOM nodes
 			templateNodes, err := parser.ParseTemplateBytes(tpl.templateBytes)
 			if err == nil {
+				// the slot templates handed to the layout carry the ids the page's elements have
+				assignOnceIDs(filename, templateNodes)
 				inheritedSlotScope = extractSlotsFromDOM(templateNodes)
 			}
 		}
